@@ -551,12 +551,24 @@ pub fn run_profile(
         )
     }
     if let Some(profile) = crate::cuts::profile(name) {
-        return crate::cuts::run_pair(seed, &profile)
+        let only = replay.and_then(|r| {
+            let k = r.extra.get("cut")?.as_u64()?;
+            let variant = r.extra.get("variant")?.as_str()?.to_string();
+            Some((k, variant))
+        });
+        return crate::cuts::run_pair_only(seed, &profile, only)
     }
     if let Some(profile) = crate::conc::profile(name) {
+        // A replay file carries the scheduler's decision list.
+        let decisions: Option<Vec<u16>> = replay.and_then(|r| {
+            r.extra.get("decisions")?.as_array().map(|list| {
+                list.iter().filter_map(|d| d.as_u64().map(|d| d as u16))
+                    .collect()
+            })
+        });
         let res = std::thread::Builder::new()
             .stack_size(32 * 1024 * 1024)
-            .spawn(move || crate::conc::run(seed, &profile, None))
+            .spawn(move || crate::conc::run(seed, &profile, decisions))
             .expect("spawn").join();
         return match res {
             Ok(report) => report,
@@ -1019,6 +1031,23 @@ fn write_replay(prop: &str, r: &RunReport, v: &Violation) -> String {
         );
         ops = min;
     }
+    // What besides the seed pins the failing execution down.
+    let mut extra = serde_json::Value::Null;
+    let mut kind = "history";
+    if crate::cuts::profile(&r.profile).is_some() {
+        kind = "cut_point";
+        let variant = v.detail.split(' ').next().unwrap_or("").to_string();
+        if ["crash", "fail", "torn", "full"].contains(&variant.as_str()) {
+            extra = serde_json::json!({ "cut": v.step, "variant": variant });
+        }
+    }
+    else if crate::conc::profile(&r.profile).is_some() {
+        kind = "schedule";
+        extra = serde_json::json!({ "decisions": r.extra_decisions });
+    }
+    else if crate::profiles::profile(&r.profile).is_none() {
+        kind = "seeded_run";
+    }
     let replay = ReplayFile {
         property: prop.to_string(),
         rule: v.rule.clone(),
@@ -1028,8 +1057,8 @@ fn write_replay(prop: &str, r: &RunReport, v: &Violation) -> String {
         ops,
         original_ops: original,
         fingerprint: r.fingerprint.clone(),
-        kind: "history".to_string(),
-        extra: serde_json::Value::Null,
+        kind: kind.to_string(),
+        extra,
     };
     let path = format!("{dir}/{prop}-{}-{}.json", r.seed, v.rule);
     let _ = std::fs::write(
